@@ -3,6 +3,8 @@
   Property theorems only; helper lemmas live in HL/Lemmas/SemTok.lean.
 -/
 import HL.Lemmas.SemTok
+import HL.Lemmas.SemTokGeom
+import HL.Lemmas.SemTokWitness
 import Std.Data.String.ToNat
 namespace HL.Props.C17
 open HL HL.SemTok HL.SemTokSpec HL.Lemmas.SemTok
@@ -137,5 +139,114 @@ theorem latest_only_stale_id_counterexample :
 
 /-- ... and the remembering client on the same history does show the full result. -/
 example : (run cfgB ({}, {}) staleHistory).2.shown "u" = some [0, 0, 1, 0, 0] := by decide +kernel
+
+/-! ## 5. The tokens themselves
+
+  Input: the lexer's token list (the lexer is not part of this model).  `tokenize cls toks` is
+  `tokenizeForSemantics`; `cls` = `unicode.IsLetter` / `IsDigit`, any. -/
+
+/-- **legend_ok.**  Every token has a type from the advertised legend (13 types) and only
+    advertised modifier bits (2 modifiers) — for every lexer output whatsoever. -/
+theorem legend_ok (cls : Classes) (toks : List Token) :
+    ∀ s ∈ tokenize cls toks, legendOk legendTypes.length legendMods.length (absOf s) = true := by
+  intro s hs
+  have := tokGo_legend cls {} toks s hs
+  have h13 : legendTypes.length = 13 := rfl
+  have h2 : legendMods.length = 2 := rfl
+  simp only [legendOk, absOf, h13, h2, Bool.and_eq_true, decide_eq_true_eq]
+  exact ⟨this.1, this.2⟩
+
+/-- **ordered_disjoint_inline (partial).**  If the lexer's tokens are laid out left to right
+    with room for the cells each one claims (`spacedB`: bounds, and every mapped token starts
+    after `column + claimWidth` of the mapped token before it) and those cells lie inside the line (`inlineB`),
+    then the semantic tokens are in document order, do not overlap, and stay inside their
+    lines — including the tag tokens cut out of comments.  The hypotheses hold for the real
+    lexer's output outside the known deviations (evaluated by the driver on every case). -/
+theorem ordered_disjoint_inline_partial (cls : Classes) (toks : List Token) (lens : List Nat)
+    (hs : spacedB cls toks = true) (hi : inlineB lens cls toks = true) :
+    orderedDisjoint ((tokenize cls toks).map absOf) = true ∧
+    ∀ a ∈ (tokenize cls toks).map absOf, inLine lens a = true :=
+  have hs' : (mappedBody toks).all (tokBounds cls) = true ∧ chainB cls (mappedBody toks) = true := by
+    simpa [spacedB] using hs
+  ⟨(tokGo_ordered cls {} toks 0 0 hs'.1 hs'.2 (by
+      cases mappedBody toks with
+      | nil => trivial
+      | cons t r => simp only [Bound]; omega)).1,
+   tokGo_inline cls lens {} toks hs'.1 hi⟩
+
+/-- **covers_lexeme (partial).**  A token that is not cut out of a comment covers exactly the
+    lexeme of the lexer token it was made from (same line, same first and last UTF-16 unit,
+    a type of that kind), provided the lexer's position and value are `faithful` to the text —
+    which is false precisely for the deviations `devPipe`, `devCode`, `devQuoted`,
+    `devTextTrim`, `devCrComment`, `devNonBmpBefore`. -/
+theorem covers_lexeme_partial (cls : Classes) (text : Bytes) (toks : List Token)
+    (s : SemToken) (t : Token) (h : (s, t) ∈ tokenizeSrc cls toks)
+    (hplain : t.ty = .comment → (extractTags cls t).isEmpty = true)
+    (hf : faithful text t = true)
+    (hb : 1 ≤ t.pos.line ∧ t.pos.line < 2 ^ 32 ∧ 1 ≤ t.pos.col ∧ t.pos.col + u16lenB t.val + 1 < 2 ^ 32) :
+    coversTok text t (absOf s) = true := by
+  obtain ⟨c', hmem, _, _⟩ := tokGoSrc_mem cls {} toks s t h
+  rcases stepTok_mem cls c' t s hmem with ⟨hc, _, hne⟩ | ⟨semType, mods, hty, _, rfl, _⟩
+  · rw [hplain hc] at hne; cases hne
+  · exact plain_covers text t semType mods hty hf hb
+
+/-- The provenance list is the token list. -/
+theorem tokenizeSrc_fst (cls : Classes) (toks : List Token) :
+    (tokenizeSrc cls toks).map (·.1) = tokenize cls toks := tokGoSrc_fst cls {} toks
+
+/-! ### Non-vacuity: a real lexer output that satisfies all hypotheses
+    (`2024-01-15 * payee ; k:v, n: w` / `    a:b  $1 @ 2 EUR`, 13 tokens, 4 of them tags). -/
+
+example : spacedB Classes.ascii W.cleanToks = true ∧
+    inlineB (lineLens16 W.cleanText) Classes.ascii W.cleanToks = true ∧
+    (tokenizeSrc Classes.ascii W.cleanToks).all (fun st =>
+      (st.2.ty == .comment && !(extractTags Classes.ascii st.2).isEmpty) || faithful W.cleanText st.2) = true ∧
+    (tokenize Classes.ascii W.cleanToks).length = 13 := by decide +kernel
+
+/-! ### The known deviations, each on the real lexer's output for its witness text -/
+
+/-- `payee|note`: the operator token is placed on the cell after the bar — it does not cover
+    the bar and it overlaps the note. -/
+theorem pipe_position_counterexample :
+    (tokenizeSrc Classes.ascii W.pipeToks).any (fun st =>
+      devPipe st.2 && !coversTok W.pipeText st.2 (absOf st.1)) = true ∧
+    orderedDisjoint ((tokenize Classes.ascii W.pipeToks).map absOf) = false := by decide +kernel
+
+/-- `(123)`: the code token covers `(12`. -/
+theorem code_length_counterexample :
+    (tokenizeSrc Classes.ascii W.codeToks).any (fun st =>
+      devCode st.2 && !coversTok W.codeText st.2 (absOf st.1)) = true := by decide +kernel
+
+/-- `"AAPL 2"`: the commodity token covers `"AAPL `. -/
+theorem quoted_commodity_length_counterexample :
+    (tokenizeSrc Classes.ascii W.quotedToks).any (fun st =>
+      devQuoted st.2 && !coversTok W.quotedText st.2 (absOf st.1)) = true := by decide +kernel
+
+/-- A payee after a tab starts on the tab; on a CRLF line a zero-length token sits on the CR. -/
+theorem text_trimmed_position_counterexample :
+    (tokenizeSrc Classes.ascii W.trimToks).any (fun st =>
+      devTextTrim W.trimText st.2 && !coversTok W.trimText st.2 (absOf st.1)) = true ∧
+    (tokenizeSrc Classes.ascii W.trim2Toks).any (fun st =>
+      devTextTrim W.trim2Text st.2 && (absOf st.1).len == 0) = true := by decide +kernel
+
+/-- `; note` + CRLF: the comment token is one unit longer than its line. -/
+theorem crlf_comment_length_counterexample :
+    (tokenizeSrc Classes.ascii W.crlfToks).any (fun st =>
+      devCrComment st.2 && !inLine (lineLens16 W.crlfText) (absOf st.1)) = true := by decide +kernel
+
+/-- After `😀` the lexer's column is one less than the UTF-16 column. -/
+theorem nonbmp_column_counterexample :
+    (tokenizeSrc Classes.ascii W.nonbmpToks).any (fun st =>
+      devNonBmpBefore W.nonbmpText (lexemeRange W.nonbmpText st.2).1 &&
+      !coversTok W.nonbmpText st.2 (absOf st.1)) = true := by decide +kernel
+
+/-- `; é, tag:value`: tag tokens are placed by byte offsets; both miss their text and the value
+    token leaves the line. -/
+theorem tag_byte_offsets_counterexample :
+    (tokenizeSrc Classes.ascii W.tagbToks).all (fun st =>
+      devTagBytes st.2 (st.1.col.toNat + st.1.len.toNat - st.2.pos.col) &&
+      !coversTag Classes.ascii W.tagbText st.2 (absOf st.1)) = true ∧
+    (tokenize Classes.ascii W.tagbToks).any (fun s => !inLine (lineLens16 W.tagbText) (absOf s)) = true := by
+  decide +kernel
 
 end HL.Props.C17
